@@ -82,7 +82,7 @@ Proof.
   eapply rpost_bind.
   { eapply (IHc genv en out ce p cc p1 fn fe cf pos ret locs st cs g); try eassumption; [inf|]. eapply pool_le_trans; eassumption. }
   intros vc o1 m _ [-> Hvc]; cbv iota beta.
-  destruct vc as [z|[|]| |s]; rt.
+  destruct vc as [z|[|]| |s|l]; rt.
   - (* condition true: one iteration *)
     vstep Hfe Hcode Hjf step_jmp_false; [lia|]. cbn [mval_of truthy].
     eapply rpost_bind.
